@@ -58,7 +58,7 @@ pub fn gen_case(rng: &mut Rng, _thorough: bool, case: u64) -> J {
     // waiting for the sink: the result is there, the limit has nothing left to stop
     let stalled_late = stalled && rng.chance(1, 3);
     if stalled_late { crits.push((json!({"after": 1500}), TerminationCriterion::TerminateAfter(Duration::from_millis(1500)))); }
-    let fail_at = if !barrier && !stalled && rng.chance(1, 4) { Some(rng.below(n1 as u64 + 5) as usize) } else { None };
+    let fail_at = if !barrier && !stalled && !immediate && rng.chance(1, 4) { Some(rng.below(n1 as u64 + 5) as usize) } else { None };
     let rej_permille = *rng.pick(&[0u64, 0, 200]);
     let calls = Arc::new(AtomicUsize::new(0));
     let live = Arc::new(AtomicUsize::new(0));
